@@ -20,7 +20,7 @@ for f in lst:
             return any(x.key == f['key'] for x in prop.oracle(case))
         except Exception:
             return False
-    if isinstance(f.get('input'), dict) and fails(f['input']):
+    if isinstance(f.get("input"), dict) and fails(prop.revive(f["input"])):
         print(f['property'], f['key'], 'recorded input ok')
         continue
     best = None
